@@ -195,6 +195,17 @@ impl Oplog {
                     outcome.oplog.entries_length = entries.len() as u64;
                     outcome.oplog.entries_byte_length =
                         entry_byte_lengths.iter().take(entries.len()).sum();
+                    // Anything behind the kept entries is a leftover (entries of an earlier
+                    // header generation whose truncation did not happen, or a half-written
+                    // entry). Cut it off now: the header bit only alternates, so leftovers
+                    // that survive further flushes look current again once new entries of the
+                    // same size have been written in front of them.
+                    let kept_end = OplogSlot::Entries as u64 + outcome.oplog.entries_byte_length;
+                    if (existing.len() as u64) > kept_end {
+                        let mut infos = outcome.infos_to_flush.into_vec();
+                        infos.push(StoreInfo::new_truncate(Store::Oplog, kept_end));
+                        outcome.infos_to_flush = infos.into_boxed_slice();
+                    }
                     outcome.entries = Some(entries.into_boxed_slice());
                 }
                 Ok(Either::Right(outcome))
